@@ -33,10 +33,10 @@ pub fn check() -> Check {
             assumptions: &[
                 "foca 0.19 contract: MemberDown(T) only after MemberUp(T); Rename is not an up/down notification",
                 "an identity (actor id, timestamp) has one address and one cluster id",
-                "distinct actors use distinct addresses (by_addr is keyed by address)",
+                "while two present members hold the same address at once, their rings are not judged (the statement does not say whose samples they are); they are judged again as soon as one holder remains",
             ],
             min_nontrivial: 1_000,
-            required_stats: &["steps.up", "steps.down", "steps.rtt", "seen.renewal_with_new_address", "seen.stale_down_ignored", "seen.avg_out_of_buckets"],
+            required_stats: &["steps.up", "steps.down", "steps.rtt", "seen.shared_address_sequences", "seen.renewal_with_new_address", "seen.stale_down_ignored", "seen.avg_out_of_buckets"],
         },
         budget: (25, 300),
         workers: (6, 14),
@@ -55,9 +55,15 @@ pub enum Step {
 #[derive(Clone, Debug)]
 pub struct World {
     pub idents: Vec<(u64, u8, u16)>,
+    /// address index 1 is the same socket address for every actor (an address taken
+    /// over by another peer, e.g. a node re-created with a new actor id)
+    pub shared_addr: bool,
 }
 
-fn addr_of(actor: u8, addr: u8) -> SocketAddr {
+fn addr_of(w: &World, actor: u8, addr: u8) -> SocketAddr {
+    if w.shared_addr && addr == 1 {
+        return "10.0.99.1:7000".parse().unwrap();
+    }
     format!("10.0.{}.{}:7000", actor, addr + 1).parse().unwrap()
 }
 
@@ -69,7 +75,7 @@ fn mk_actor(w: &World, actor: u8, ident: u8) -> Actor {
     let (ts, addr, cluster) = w.idents[ident as usize];
     Actor::new(
         actor_id(actor),
-        addr_of(actor, addr),
+        addr_of(w, actor, addr),
         Timestamp(NTP64::from(Duration::from_secs(ts))),
         ClusterId(cluster),
     )
@@ -151,7 +157,7 @@ impl Model {
                 m.reported_down_max_ts = Some(m.reported_down_max_ts.map_or(ts, |d| d.max(ts)));
             }
             Step::Rtt { addr, ms } => {
-                let a = decode_addr(*addr);
+                let a = decode_addr(w, *addr);
                 let q = self.rtts.entry(a).or_default();
                 q.push_front(*ms);
                 if q.len() > 20 {
@@ -174,7 +180,7 @@ impl Model {
                 && m.last.get(&n).copied().unwrap_or(false)
             {
                 let (ts, addr, cluster) = w.idents[n as usize];
-                out.insert(actor_id(*actor), (addr_of(*actor, addr), ts, cluster));
+                out.insert(actor_id(*actor), (addr_of(w, *actor, addr), ts, cluster));
             }
         }
         out
@@ -193,8 +199,8 @@ fn newest(w: &World, m: &ModelMember) -> Option<u8> {
 }
 
 // rtt addr code: actor*2 + addr
-fn decode_addr(code: u8) -> SocketAddr {
-    addr_of(code / 2, code % 2)
+fn decode_addr(w: &World, code: u8) -> SocketAddr {
+    addr_of(w, code / 2, code % 2)
 }
 
 pub fn compare(w: &World, model: &Model, real: &Members) -> Result<(), (String, Value)> {
@@ -215,8 +221,18 @@ pub fn compare(w: &World, model: &Model, real: &Members) -> Result<(), (String, 
             json!({"expected": exp.iter().map(|(k, v)| (k.to_string(), format!("{v:?}"))).collect::<BTreeMap<_, _>>(), "got": got.iter().map(|(k, v)| (k.to_string(), format!("{v:?}"))).collect::<BTreeMap<_, _>>()}),
         ));
     }
+    // an address held by two present members at once: which of them the samples belong
+    // to is not determined by the statement; judged again once one holder remains
+    let mut holders: BTreeMap<SocketAddr, u32> = BTreeMap::new();
+    for (addr, _, _) in exp.values() {
+        *holders.entry(*addr).or_insert(0) += 1;
+    }
+    let contested = |a: &SocketAddr| holders.get(a).copied().unwrap_or(0) > 1;
     // rings
     for (id, st) in real.states.iter() {
+        if contested(&st.addr) {
+            continue;
+        }
         let avg = model.avg(&st.addr);
         let want: Option<u8> = avg.and_then(|a| {
             BUCKETS
@@ -238,10 +254,10 @@ pub fn compare(w: &World, model: &Model, real: &Members) -> Result<(), (String, 
     }
     // ring0 selection per cluster
     for c in [0u16, 1, 2] {
-        let got: Vec<SocketAddr> = real.ring0(ClusterId(c)).collect();
+        let got: Vec<SocketAddr> = real.ring0(ClusterId(c)).filter(|a| !contested(a)).collect();
         let mut want: Vec<SocketAddr> = exp
             .values()
-            .filter(|(addr, _, cl)| *cl == c && model.avg(addr).is_some_and(|a| a < 6))
+            .filter(|(addr, _, cl)| *cl == c && !contested(addr) && model.avg(addr).is_some_and(|a| a < 6))
             .map(|(addr, _, _)| *addr)
             .collect();
         let mut g = got.clone();
@@ -265,7 +281,7 @@ pub fn apply_real(w: &World, real: &mut Members, s: &Step) {
         Step::Down { actor, ident } => {
             real.remove_member(&mk_actor(w, *actor, *ident));
         }
-        Step::Rtt { addr, ms } => real.add_rtt(decode_addr(*addr), Duration::from_millis(*ms)),
+        Step::Rtt { addr, ms } => real.add_rtt(decode_addr(w, *addr), Duration::from_millis(*ms)),
     }
 }
 
@@ -318,6 +334,7 @@ fn run(ctx: &mut Ctx) {
     // ---- small scope: 1 actor, 3 identities: (ts 10, addr0, cl0), (ts 20, addr1, cl0), (ts 30, addr0, cl1)
     let w = World {
         idents: vec![(10, 0, 0), (20, 1, 0), (30, 0, 1)],
+        shared_addr: false,
     };
     let mut alphabet: Vec<Step> = vec![];
     for ident in 0..3u8 {
@@ -360,6 +377,51 @@ fn run(ctx: &mut Ctx) {
         ctx.stat_max("small_scope_max_len", max_len as u64);
     }
 
+    // ---- small scope 2: 2 actors, identities (ts 10, own address), (ts 20, the shared
+    // address), (ts 30, own address): an address passes from one peer to the other
+    {
+        let w = World {
+            idents: vec![(10, 0, 0), (20, 1, 0), (30, 0, 0)],
+            shared_addr: true,
+        };
+        let mut alphabet: Vec<Step> = vec![];
+        for actor in 0..2u8 {
+            for ident in 0..3u8 {
+                alphabet.push(Step::Up { actor, ident });
+            }
+            alphabet.push(Step::Down { actor, ident: 1 });
+        }
+        alphabet.push(Step::Rtt { addr: 1, ms: 2 }); // the shared address
+        alphabet.push(Step::Rtt { addr: 0, ms: 2 });
+        alphabet.push(Step::Rtt { addr: 2, ms: 60 });
+        let n = alphabet.len() as u64; // 11
+        let max_len = ctx.tier.pick(4u32, 6u32);
+        let mut idx = 0u64;
+        'outer2: for len in 1..=max_len {
+            for code in 0..n.pow(len) {
+                idx += 1;
+                if idx % ctx.workers as u64 != ctx.worker as u64 {
+                    continue;
+                }
+                if !ctx.time_left() {
+                    break 'outer2;
+                }
+                let mut c = code;
+                let steps: Vec<Step> = (0..len)
+                    .map(|_| {
+                        let s = alphabet[(c % n) as usize].clone();
+                        c /= n;
+                        s
+                    })
+                    .collect();
+                if steps.iter().any(|s| matches!(s, Step::Up { ident: 1, .. })) {
+                    ctx.stat("seen.shared_address_sequences", 1);
+                }
+                eval(ctx, &w, &steps);
+            }
+        }
+    }
+
     // ---- random: 4 actors, 4 identities each, out-of-order and equal timestamps
     let target = ctx.tier.pick(20_000u64, 2_000_000u64);
     let mut k = 0;
@@ -373,6 +435,7 @@ fn run(ctx: &mut Ctx) {
             tss.swap(i, j);
         }
         let w = World {
+            shared_addr: k % 3 == 0,
             idents: (0..n_ident)
                 .map(|i| (tss[i], rng.random_range(0..2u8), rng.random_range(0..3u16)))
                 .collect(),
